@@ -36,8 +36,8 @@ for pid in sorted(claimed):
       "replay_cmd_template": "bin/gosym replay {path}",
       "engine": "gosym",
       "level_claimed": {"category": lvl, "text": text, "design_ref": "DESIGN.md section "+ref},
-      "level_note": "Trusted: go/ssa construction, the forked interpreter (validated per run by native replay of sampled paths), the intrinsic models listed in DESIGN.md 2.3, z3. Claims are bounded: enumerated patterns, text length, rune domain as written in the evidence file.",
-      "technique": "solver-based bounded symbolic execution of the real code (go/ssa interpreter fork + z3, all feasible paths within stated bounds)",
+      "level_note": "Trusted: go/ssa construction, the forked interpreter (validated per run by native replay of sampled paths), the intrinsic models listed in DESIGN.md 2.3, z3 and the engine's finite-domain procedure for one-variable conditions (DESIGN.md 0.1; cross-checked against z3 on a sample in every run). Claims are bounded: enumerated patterns, text length, rune domain as written in the evidence file. VERIF_SEED is recorded but does not select units.",
+      "technique": "solver-based bounded symbolic execution of the real code: go/ssa interpreter fork with symbolic bit-vector inputs, every feasible path within the stated bounds decided by z3 (path conditions made only of one-variable literals over small listed domains are decided by the engine's exact finite-domain procedure, sampled against z3 in every run); counterexamples replayed against the native build",
     })
 m={
  "version":1,
